@@ -101,6 +101,11 @@ func runFed(h History, blocks []BlockFeed, perturb bool, concurrent bool) []Bloc
 		}
 		tr, _ := r.RunBlock(b, &blocks[i])
 		traces = append(traces, tr)
+		if perturb && i%3 == 1 && !n.InBlock {
+			// the process is stopped and started again on its database (everything held only in memory is gone)
+			n = n.Restart()
+			r.n = n
+		}
 	}
 	close(stop)
 	wg.Wait()
@@ -673,7 +678,7 @@ func init() {
 func TestC01_Replicas(t *testing.T) {
 	st := ev.New("C01", "TestC01_Replicas", "block history executed on replica A (builds the txs), an independently constructed replica B, a perturbed replica (CheckTx/ReCheckTx/Simulate of the same txs, garbage CheckTx, query battery, non-zero-height export, other apps constructed first) and a replica in a separate OS process with another GOMAXPROCS; non-trivial = >= 1 successful EVM tx touching >= 2 accounts/slots or >= 3 distinct successful tx kinds")
 	runCorpus(t, st)
-	runRapid(t, st, 48, 4000, func(rt *rapid.T) {
+	runRapid(t, st, 128, 4000, func(rt *rapid.T) {
 		if msg := runC01(st, genHistory(rt, 3, 10, hKinds)); msg != "" {
 			rt.Fatalf("%s", msg)
 		}
